@@ -317,7 +317,8 @@ impl PayloadHistory {
 
     /// Pushes a new delta to the history
     fn push_delta(&mut self, delta: PayloadDelta) {
-        if self.deltas.len() == self.keep {
+        // We always keep at least the newest delta: it carries the serial.
+        if self.deltas.len() >= cmp::max(self.keep, 1) {
             let _ = self.deltas.pop_back();
         }
         self.deltas.push_front(Arc::new(delta))
